@@ -35,6 +35,7 @@ struct SchedConfig {
   int pct_depth = 2;
   int starve_tid = 0;
   int max_spurious = 0;
+  int max_timeouts = 8;        // time-outs of timed waits fired at random per run (one that fires because nothing else can run is not counted)
   double p_spurious = 0.02;
   uint64_t seed = 1;
   bool use_replay = false;
